@@ -68,7 +68,7 @@ def run_c07(cfg: GCfg, c: Ctx) -> Any:
     c.heavy()
     prio = {n: c.int("p_" + n) for n in names}
     cnt = Counter()
-    xns = {n: xn(term_fn(n, cnt), priority=prio[n], debug=(n in dbg), resource=Resource.main_thread) for n in names}
+    xns = {n: xn(term_fn(n, cnt), priority=prio[n], debug=(n in dbg), resource=Resource.main_thread, tag=("g", "t_" + n)) for n in names}
 
     def pipe() -> Any:
         r: Dict[str, Any] = {}
@@ -105,9 +105,17 @@ def run_c07(cfg: GCfg, c: Ctx) -> Any:
         check_table(d3.graph_ids.compound_priority, want, [n for n in names if n in d3.exec_nodes], "of the DAG derived with compose()")
         c.cover("w_rebuilt")
     # reconfiguration: all nodes or one node get fresh priorities
-    k = c.choose(N + 2, "reconf") if cfg.reconf else 0
+    k = c.choose(N + 3, "reconf") if cfg.reconf else 0
     cur = dict(prio)
-    if k:
+    if k == N + 2:
+        # one entry addressed to the tag carried by every node: all of them get the new priority
+        q = c.int("q_shared")
+        d.config_from_dict({"nodes": {"g": {"priority": q}}})
+        cur = {n: q for n in names}
+        want = cp_def(cur)
+        check_table(d.graph_ids.compound_priority, want, names, "after config_from_dict through a shared tag")
+        c.cover("w_reconfigured")
+    elif k:
         which = names if k == N + 1 else [names[k - 1]]
         newp = {n: c.int("q_" + n) for n in which}
         d.config_from_dict({"nodes": {n: {"priority": newp[n]} for n in which}})
@@ -135,6 +143,12 @@ def run_c07(cfg: GCfg, c: Ctx) -> Any:
                 c.cover("w_debug_in_subgraph")
         finally:
             twz_cfg.RUN_DEBUG_NODES = saved
+    if cfg.debug and dbg:
+        # direct calls do not change the table (the run graph must not share mutable state with the DAG's graph)
+        twz_cfg.RUN_DEBUG_NODES = False
+        d()
+        d()
+        check_table(d.graph_ids.compound_priority, want, names, "after two direct calls")
     c.cover("states", hash((tuple(names), tuple(tuple(deps[n]) for n in names), tuple(sorted(dbg)))))
     if any(len(anc[n]) >= 2 and any(a in anc[b] for a in anc[n] for b in anc[n]) for n in names):
         c.cover("w_diamond")
@@ -384,7 +398,12 @@ def run_c13(cfg: GCfg, c: Ctx) -> Any:
         return {"case": "rejected", **data}
     c.check(built, "valid debug placement rejected", prop="C13", data=data)
     run_dbg = bool(c.choose(2, "run_debug"))
-    modes = ["call"] + [(k, l) for k in ("target", "exclude", "root") for l in labels] + (["setup"] if setup0 else [])
+    # optionally one node is reconfigured (priority only) before anything runs: it must stay what it was (debug or not)
+    k = c.choose(N + 1, "reconf") if cfg.reconf else 0
+    if k:
+        d.config_from_dict({"nodes": {labels[k - 1]: {"priority": 3}}})
+        c.cover("w_reconfigured")
+    modes = ["call"] + [(k, l) for k in ("target", "exclude", "root", "deps_of") for l in labels] + (["setup"] if setup0 else [])
     if cfg.combined:
         modes += [(k, a, b) for k in ("root+target", "root+exclude") for a in labels for b in labels if a != b]
     mode = modes[c.choose(len(modes), "mode")]
@@ -419,9 +438,9 @@ def run_c13(cfg: GCfg, c: Ctx) -> Any:
             kind, x = mode
             if kind == "root":
                 c.assume(not alldeps[x])
-            kwsel = {kind + "_nodes": [x]}
+            kwsel = {kind + "_nodes": [x]} if kind != "deps_of" else {"cache_deps_of": [x]}
             sel_all = selection_spec(labels, alldeps, {x} if kind == "root" else None, {x} if kind == "exclude" else None,
-                                     {x} if kind == "target" else None)
+                                     {x} if kind in ("target", "deps_of") else None)
             ex = d.executor(**kwsel)
             graph_nodes = set(ex.graph.nodes)
             out = ex()
